@@ -65,6 +65,30 @@ Theorem C06_all_gone_idle : forall cred t h,
 Proof. exact hs_all_gone_idle. Qed.
 Print Assumptions C06_all_gone_idle.
 
+(* what becomes of a peer is a function of the bytes it sent alone: for EVERY way of cutting the stream into pieces
+   (c0, then c1, ... each followed by a look of the server): fewer bytes than a request -> pending with exactly those
+   bytes buffered; a complete request with the AUTHENTICATE id in front -> a connection granted the requested size;
+   anything else -> closed *)
+Theorem C06_handshake_outcome_by_stream : forall t c0 cs,
+  let s := fst (hs_run true (hs_init t) (HNew c0 :: map (HApp 0) cs)) in
+  exists p, h_peers s = [p] /\ p_stat p = classify 0 (concat (c0 :: cs)).
+Proof. exact handshake_outcome_by_stream. Qed.
+Print Assumptions C06_handshake_outcome_by_stream.
+
+Theorem C06_handshake_chunking_irrelevant : forall t c0 cs d0 ds,
+  concat (c0 :: cs) = concat (d0 :: ds) ->
+  map p_stat (h_peers (fst (hs_run true (hs_init t) (HNew c0 :: map (HApp 0) cs)))) =
+  map p_stat (h_peers (fst (hs_run true (hs_init t) (HNew d0 :: map (HApp 0) ds)))).
+Proof. exact handshake_chunking_irrelevant. Qed.
+Print Assumptions C06_handshake_chunking_irrelevant.
+
+(* end of stream without close: no auth record keeps waiting - the handshake is decided at once *)
+Theorem C06_shutdown_decides : forall cred s k p s' x,
+  Inv_hs s -> nth_error (h_peers s) k = Some p -> hs_step cred s (HShut k) = (s', x) ->
+  exists p', nth_error (h_peers s') k = Some p' /\ decided p' /\ r_auths (weight (h_tr s') (p_stat p')) = 0.
+Proof. exact hs_shut_decides. Qed.
+Print Assumptions C06_shutdown_decides.
+
 (* the server keeps serving others: a peer's bytes change nothing about any other peer, nor about an established
    connection, and cause no msg_process call there *)
 Theorem C06_peers_isolated : forall cred s o s' x j,
@@ -122,6 +146,12 @@ Example C06_example_session :
     [(0, 0, 0); (-1, 0, 0); (1, 1, 0); (0, 0, 0); (0, 0, 0); (-1, 0, 0); (-1, 0, 0); (1, 0, 1); (-1, 0, 0); (-1, 0, 0)] /\
   h_res (fst r) = res_idle /\ Forall dead (h_peers (fst r)).
 Proof. exact ex_session_result. Qed.
+
+Example C06_example_classify :
+  classify 0 (firstn 23 ex_valid) = PPending (firstn 23 ex_valid) /\
+  classify 0 (ex_valid ++ [1; 2; 3]) = PConn 8192 /\
+  classify 0 (5 :: tl ex_valid) = PClosed.
+Proof. exact classify_examples. Qed.
 
 Example C06_example_hostile_request_dropped :
   forall t, let r := run fixed (init t 12328) [(CRaw hostile_req, []); (STurn false, [])] in
